@@ -11,6 +11,6 @@ fn main() {
             only: &["two-parties", "lifecycle-order", "store-over-live-state", "txrx-panic", "app-panic"],
         },
         300,
-        4000,
+        2000,
     );
 }
